@@ -79,6 +79,9 @@ func Scenarios(thorough bool) map[string]*Scenario {
 	// Kruise Advanced DaemonSet (3 nodes), absolute steps
 	m["Q11"] = &Scenario{ID: "Q11", Kind: "DaemonSet", Style: "partition", Replicas: 3,
 		Steps: []StepSpec{{Replicas: "1"}, {Replicas: "2"}, {Replicas: "3"}}}
+	// Advanced DaemonSet + nginx Ingress
+	m["Q11t"] = &Scenario{ID: "Q11t", Kind: "DaemonSet", Style: "partition", Replicas: 3, Traffic: "ingress", Grace: 1,
+		Steps: []StepSpec{{Replicas: "1", Traffic: "20%"}, {Replicas: "3"}}}
 	// Deployment partition style (the repository's advanced Deployment controller drives the ReplicaSets)
 	m["Q07"] = &Scenario{ID: "Q07", Kind: "Deployment", Style: "partition", Replicas: 3, MaxSurge: "20%", MaxUnavailable: "1",
 		Steps: []StepSpec{{Replicas: "34%"}, {Replicas: "100%"}}}
@@ -175,7 +178,7 @@ func plans0(thorough bool) map[string]PropertyPlan {
 			FreeQueues: true, StateCap: capQ, Monitors: func(w *World, sc *Scenario) []Monitor {
 				return []Monitor{FinalizerMonitor{Base: CaptureBaseline(w, sc)}}
 			}},
-		"C07": {Scenarios: []string{"Q01", "Q01b", "Q01c", "Q01r", "Q02", "Q03", "Q05", "Q05g", "Q05r", "Q07", "Q07m", "Q08", "Q09", "Q10", "Q11"}, Actions: nil, MaxUser: 0,
+		"C07": {Scenarios: []string{"Q01", "Q01b", "Q01c", "Q01r", "Q02", "Q03", "Q05", "Q05g", "Q05r", "Q07", "Q07m", "Q08", "Q09", "Q10", "Q10t", "Q11", "Q11t"}, Actions: nil, MaxUser: 0,
 			FreeQueues: false, Liveness: true, StateCap: capQ, Monitors: func(w *World, sc *Scenario) []Monitor { return []Monitor{PanicMonitor{}} }},
 		"C06": {Scenarios: c06Scenarios, Actions: nil, MaxUser: 0, Disturbances: []string{"crash", "midcrash", "error", "conflict"}, MaxDisturb: 1,
 			FreeQueues: true, StateCap: capQ, Relabel: true, LiveScenarios: []string{"Q01b", "Q02", "Q05", "Q08", "Q09", "Q10", "Q11", "Q31"},
